@@ -236,7 +236,7 @@ def check_roundtrip(case, cfg, loaded, viol):
         viol("config-serialize", f"serialize() differs after the round trip in {keys}")
 
 
-INJECTIONS = ["dangling_blocker", "duplicate_name", "unknown_group", "no_group", "duplicate_group", "max_nodes_differ", "poll_differs", "hpc_type_differs", "estimate_above_walltime"]
+INJECTIONS = ["dangling_blocker", "duplicate_name", "duplicate_job_id", "unknown_group", "no_group", "duplicate_group", "max_nodes_differ", "poll_differs", "hpc_type_differs", "estimate_above_walltime"]
 
 
 def inject(kind, data, rng):
@@ -252,6 +252,17 @@ def inject(kind, data, rng):
         a, b = rng.sample(jobs, 2)
         nm = a.get("name") if a.get("name") is not None else str(a["job_id"])
         b["name"] = nm
+    elif kind == "duplicate_job_id":
+        # two unnamed entries with one job_id (a copy-pasted entry in a hand-edited file): both are named str(job_id)
+        un = [j for j in jobs if j.get("name") is None and j.get("job_id") is not None]
+        if not un:
+            return False
+        a = rng.choice(un)
+        if len(un) >= 2 and rng.random() < 0.5:
+            b = rng.choice([j for j in un if j is not a])
+            b["job_id"] = a["job_id"]
+        else:
+            jobs.insert(rng.randint(0, len(jobs)), copy.deepcopy(a))
     elif kind == "unknown_group":
         rng.choice(jobs)["submission_group"] = "no_such_group"
     elif kind == "no_group":
